@@ -31,6 +31,7 @@ func checkC05(p *Program, r *Report) {
 	r.Floor("header-shape", 5)
 	// raw frames must own their bytes: nothing pooled may back a RawFrame body
 	poolHygiene(p, r, "pool-hygiene")
+	fullReads(p, r, "full-reads", "frame", "primitive", "compression/lz4", "compression/snappy")
 
 	headerPrefix := func(fn *types.Func, n int, presets map[string]Val, v Val) map[string]bool {
 		out := map[string]bool{}
@@ -365,4 +366,44 @@ func sliceLenOf(buf ssa.Value) ssa.Value {
 		}
 	}
 	return nil
+}
+
+// fullReads: wire data is read with calls that deliver exactly the requested number of bytes or an
+// error (io.ReadFull, io.CopyN, binary.Read, bufio/bytes helpers). A bare Read may return fewer
+// bytes than asked without an error - on a socket, whenever the data arrives in several pieces -
+// and what was not read is then taken for the next item. Decided for every function of the given
+// packages: no call of a method Read([]byte) (int, error) at all.
+func fullReads(p *Program, r *Report, rule string, pkgs ...string) {
+	want := map[string]bool{}
+	for _, k := range pkgs {
+		want[k] = true
+	}
+	n := 0
+	for _, fn := range p.ModuleFuncs() {
+		if fn.Pkg == nil || !want[shortPkg(fn.Pkg.Pkg)] {
+			continue
+		}
+		for _, b := range fn.Blocks {
+			for _, ins := range b.Instrs {
+				c, ok := ins.(*ssa.Call)
+				if !ok {
+					continue
+				}
+				name, sig := "", (*types.Signature)(nil)
+				if c.Call.IsInvoke() {
+					name, sig = c.Call.Method.Name(), c.Call.Method.Type().(*types.Signature)
+				} else if f := c.Call.StaticCallee(); f != nil && f.Signature.Recv() != nil {
+					name, sig = f.Name(), f.Signature
+				}
+				if name != "Read" || sig == nil || sig.Params().Len() != 1 || sig.Results().Len() != 2 || !isByteSlice(sig.Params().At(0).Type()) {
+					continue
+				}
+				n++
+				r.Fail(rule, fmt.Sprintf("%s Read#%d", fnKey(fn), n), c.Pos(), "%s reads with a bare Read call, which may deliver fewer bytes than requested without an error (data arriving in several pieces on a socket): the rest is then parsed as the next item; use io.ReadFull", fn.Name())
+			}
+		}
+	}
+	if n == 0 {
+		r.OKf(rule, "no-bare-read", token.NoPos, "packages %s read wire data only through exact-length reads", strings.Join(pkgs, ", "))
+	}
 }
